@@ -2,7 +2,7 @@
 spec/Executor.tla (abstract: exactly once, batch = run of consecutive adds in order, bounds, Wait soundness),
 spec/ExecutorTrace.tla (trace acceptor), spec/PeriodicalImpl.tla (lock/inflight/guarded/commander/confirm mechanism).
 Code -> spec: histories recorded from the real executors (race detector on) are validated by TLC."""
-import json, os, subprocess
+import json, os, re, subprocess, threading
 from vlib import core
 
 PKG = "./lib/executors"
@@ -18,42 +18,55 @@ CLIENTS = {
 }
 INVS = ["ExactlyOnce", "InOrder", "Bounded", "Sane"]
 TRACE_CONSTS = dict(Procs="0..7", Confs="{}", Sizes="{}", MaxTask=0)
+LOCK = threading.Lock()       # recorder shards run side by side
 IMPL_SAFETY = ["ExactlyOnce", "HeldCovered", "CmdCovered", "AllExecuted", "Contiguous", "OneLoopFlusher"]
 
 META = dict(
     text="Trace validation against a TLA+ specification plus model checking of the hand-over mechanism: randomized "
          "concurrent scenarios (2-4 callers doing Add/Flush/Wait, hand-driven ticks, virtual-clock jumps that make the "
-         "background flusher retire and be restarted) and two directed scenarios (the hand-over window of a threshold Add, and "
-         "the flusher's idle-quit decision racing a threshold Add) are run on the real "
+         "background flusher retire and be restarted) and three directed scenarios (the hand-over window of a threshold Add, "
+         "the flusher's idle-quit decision racing a threshold Add, and Adds placed on the retiring tick - between that tick's "
+         "empty Flush and shallQuit's lock region, through the virtual-clock read of shallQuit - after which ticks and clock "
+         "jumps alone run until no flusher is left and a `rest` event asks whether anything was left behind) are run on the real "
          "PeriodicalExecutor (recording TaskContainer: AddTask/RemoveAll logged under pe.lock, Execute begin/end), "
          "BulkExecutor and ChunkExecutor (public API + execute callback) with the race detector and several GOMAXPROCS; "
          "TLC decides for every history whether it is a behaviour of spec/Executor.tla (every task executed exactly "
          "once, batches are runs of consecutive adds in order, bulk/chunk bounds, Wait returns only after every task "
          "whose Add returned before the Wait call has finished executing, nothing left at quiescence; a public call that does "
          "not return although ticks and clock jumps are kept going for a 30 s grace period closes the history with a `hang` "
-         "event that the specification never allows). "
+         "event that the specification never allows). Every history is judged against the configuration of its own executor: "
+         "scenario `multi` creates two or three executors of one kind in sequence in one process with different explicit / "
+         "defaulted options (task count / byte limit, flush interval; the package's default constants stand for options left "
+         "out), uses them in order, in reverse order or at the same time, fills an executor that relies on the default task "
+         "count past it, and records one history per executor; the period each flusher asks its ticker for must be the "
+         "configured interval. "
          "spec/PeriodicalImpl.tla (pe.lock regions, inflight, guarded, 1-slot commander, unbuffered confirmChan, "
          "wgBarrier/waitGroup, flusher select loop, shallQuit, final Flush) is model-checked over all interleavings for "
-         "exactly-once, flusher-alive-while-work-pending, single loop flusher and deadlock freedom (two seeded mechanism "
+         "exactly-once, flusher-alive-while-work-pending, single loop flusher and deadlock freedom (three seeded mechanism "
          "changes are kept as expected-violation variants). Clients of the executors are recorded in the same trace "
          "format and judged by the same acceptor: sqlx.BulkInserter (fake Conn parsing the executed INSERT statements; "
          "result handler once per executed statement; Flush, 1000-row threshold and real 1 s tick as triggers; failing "
          "Execs) and stat.Metrics (reports decoded through power-of-two task durations; drops counted). "
          "spec/ExecutorGen.tla enumerates every sequential behaviour (Add/tick/Flush/Wait/idle jump) of Bulk- and "
-         "ChunkExecutor up to 4-6 steps with predicted batches per step, replayed on the real executors.",
+         "ChunkExecutor up to 4-6 steps with predicted batches per step, replayed on the real executors (each between two "
+         "unused decoy executors with other options; one plan runs a ChunkExecutor created without options against the "
+         "generator instantiated with the package's default byte limit).",
     note="Trusted: TLC, the tracer's global sequence number (container events are emitted under pe.lock; inv before / ret "
          "after each call), Go race detector, the in-package reads of pe.guarded used only as a harness barrier. "
-         "Coverage of the real code is the set of recorded schedules (plus the two directed scenarios), not all "
+         "Coverage of the real code is the set of recorded schedules (plus the three directed scenarios), not all "
          "schedules: the exhaustive exploration is on the PeriodicalImpl model, whose counterexamples are leads only "
          "(reported in evidence, never as violations). No vhook gates (tier 2 of the design) were built; the spec->code "
          "replay covers sequential behaviours only; BulkInserter/Metrics expose no Wait (the recorder uses the embedded "
          "executor's) and no ticker injection (real 1 s ticker, one tick-triggered history per run); Metrics reports are "
-         "judged on task identity, count and drops, not on the percentile figures; bulk/chunk use a real 1 ms ticker in half of the histories.",
+         "judged on task identity, count and drops, not on the percentile figures; bulk/chunk use a real 1 ms ticker in half of the histories. "
+         "The default task count of BulkExecutor is exercised by recorded histories only (no generated behaviours: 1000 Adds per step); "
+         "BulkInserter and Metrics have no options, so there is no multi-executor scenario for them.",
     technique="TLA+ abstract spec + TLC trace validation of recorded concurrent histories + TLC model checking of the mechanism",
     design="4/C16")
 
 FINISH = dict(rule="one history = one scenario on a fresh executor (2-4 callers x 2-7 calls, environment goroutine issuing "
-                   "ticks/clock jumps, final Wait, flusher retired, quiescence); every history is checked event by event "
+                   "ticks/clock jumps, [rest], final Wait, flusher retired, quiescence; the executors of a `multi` scenario "
+                   "are one history each); every history is checked event by event "
                    "by TLC against ExecutorTrace.tla; states/transitions also include the model-checking runs of "
                    "Executor.tla and PeriodicalImpl.tla")
 
@@ -101,12 +114,14 @@ def mc_impl(ctx):
     # vacuity guards: two seeded mechanism changes (caught by the recorder on the real code) must be visible on the model
     variants = {}
     name, sc, thr = plans[0]
-    for v in ("quit_ignores_inflight", "unguard_after_final_flush"):
+    for v in ("quit_ignores_inflight", "unguard_after_final_flush", "no_final_flush"):
         K = dict(NA=sc.count("<<") - 1, Scripts=sc, Thr=thr, MaxGen=2, Cap=1, Fix=1, Variant='"%s"' % v)
         cfg = core.render_cfg(spec="Spec", constants=K, invariants=IMPL_SAFETY + ["WaitSound"], check_deadlock=True)
         r = ctx.tlc("PeriodicalImpl", cfg, constants=K, name="Impl-variant-%s" % v, workers=6, timeout=1500, allow_violation=True)
         if not r.violated:
             raise core.Infra("vacuous model: PeriodicalImpl variant %s satisfies every invariant and is deadlock free" % v)
+        if v == "no_final_flush" and r.violated not in ("HeldCovered", "AllExecuted"):
+            raise core.Infra("PeriodicalImpl variant no_final_flush violates %s, expected HeldCovered/AllExecuted" % r.violated)
         steps = [l.split(" line")[0].replace("State ", "").strip() for l in r.trace_text.splitlines() if l.startswith("State ")]
         variants[v] = dict(violated=r.violated, length=len(steps), actions=steps[:40])
     ctx.notes["impl_model_expected_violations"] = variants
@@ -122,7 +137,7 @@ def record(ctx, binp, label, rounds, gomaxprocs, shard, kind="", test="^TestVeri
     e = dict(os.environ)
     e.update(core.GOENV)
     e.update(VERIF_SEED=str(ctx.seed), VERIF_TRACE=path, VERIF_ROUNDS=str(rounds), VERIF_SHARD=str(shard),
-             GOMAXPROCS=str(gomaxprocs), VERIF_KIND=kind)
+             GOMAXPROCS=str(gomaxprocs), VERIF_KIND=kind, VERIF_MULTI_EVERY="4" if ctx.quick else "16")
     try:
         p = subprocess.run([binp, "-test.run", test, "-test.count=1", "-test.timeout", "900s"],
                            cwd=os.path.join(core.REPO, pkgdir), env=e, capture_output=True, text=True, timeout=1000)
@@ -134,10 +149,11 @@ def record(ctx, binp, label, rounds, gomaxprocs, shard, kind="", test="^TestVeri
         return None
     if p.returncode != 0 or "C16TRACES" not in out:
         raise core.Infra("C16 recorder failed rc=%s (%s)\n%s" % (p.returncode, label, out[-3000:]))
-    for tok in out[out.index("C16TRACES"):].split():
-        if "=" in tok:
-            k, v = tok.split("=")
-            ctx.counters["rec." + k] = ctx.counters.get("rec." + k, 0) + int(v)
+    with LOCK:
+        for tok in out[out.index("C16TRACES"):].split():
+            if "=" in tok:
+                k, v = tok.split("=")
+                ctx.counters["rec." + k] = ctx.counters.get("rec." + k, 0) + int(v)
     return path
 
 
@@ -175,6 +191,16 @@ def describe(segment, first_bad):
         if bad.get("e") == "threshold-no-flush":
             return (" [one caller inserted exactly %d rows into a fresh inserter and called nothing else; in %d attempts no INSERT was "
                     "executed before the first tick became due: reaching the size threshold did not flush]" % (bad.get("rows", 0), bad.get("attempts", 0)))
+        if bad.get("e") == "rest":
+            size = {e["t"] for e in evs[:first_bad] if e["e"] == "ainv"}
+            fin = {t for e in evs[:first_bad] if e["e"] == "xe" for t in e.get("b", [])}
+            return (" [no public call is in progress and every goroutine of the executor has ended (the background flusher retired) - "
+                    "reached by ticks and clock jumps alone, without any further Add/Flush/Wait - but tasks %s have not been executed: "
+                    "no trigger is left that would flush them]" % sorted(size - fin))
+        if bad.get("e") == "fstart":
+            return (" [the background flusher asked for a ticker of period %s ms; this executor's configured flush interval is %s ms%s]"
+                    % (bad.get("d"), evs[0].get("iv"), " (package default; other executors in the process were given other intervals)"
+                       if evs[0].get("sc") == "multi" else ""))
         if bad.get("e") == "quiesce":
             return " [at quiescence (all callers returned, final Wait returned, flusher retired) some added task was not executed exactly once]"
         if bad.get("e") != "wret":
@@ -195,12 +221,33 @@ def describe(segment, first_bad):
         return ""
 
 
+def _short(m):
+    nums = m.group(0).split(",")
+    return ",".join(nums[:6]) + ",...(%d ids)...," % (len(nums) - 9) + ",".join(nums[-3:])
+
+
 def validate(ctx, path, name):
-    return ctx.validate_traces("ExecutorTrace", path, key_prefix="C16", invariants=INVS, name=name, timeout=1500,
-                               constants=TRACE_CONSTS, describe=describe, max_rejections=2)
+    n0 = len(ctx.disagreements)
+    r = ctx.validate_traces("ExecutorTrace", path, key_prefix="C16", invariants=INVS, name=name, timeout=1500,
+                            constants=TRACE_CONSTS, describe=describe, max_rejections=2)
+    for d in ctx.disagreements[n0:]:     # a batch of a thousand ids must not push the reason out of the report line
+        d["msg"] = re.sub(r"\d+(?:,\d+){40,}", _short, d["msg"])
+    return r
 
 
-def gen_replay(ctx, binp, name, kind, mx, sizes, maxlen):
+def defaults(ctx, binp):
+    """The default constants of the package under test (a defaulted executor is judged against them)."""
+    e = dict(os.environ)
+    e.update(core.GOENV)
+    p = subprocess.run([binp, "-test.run", "^TestVerifC16Defaults$", "-test.count=1"], cwd=os.path.join(core.REPO, "lib/executors"),
+                       env=e, capture_output=True, text=True, timeout=300)
+    m = re.search(r"C16DEFAULTS bulk=(\d+) chunk=(\d+) interval_ms=(\d+)", p.stdout)
+    if p.returncode != 0 or not m:
+        raise core.Infra("cannot read the package defaults rc=%s\n%s" % (p.returncode, (p.stdout + p.stderr)[-2000:]))
+    return dict(bulk=int(m.group(1)), chunk=int(m.group(2)), interval_ms=int(m.group(3)))
+
+
+def gen_replay(ctx, binp, name, kind, mx, sizes, maxlen, defaulted=0):
     """spec -> code: every sequential behaviour of ExecutorGen.tla up to maxlen steps (complete BFS enumeration) is
     executed on the real Bulk/ChunkExecutor and compared step by step."""
     K = dict(Kind='"%s"' % kind, Max=mx, Sizes=sizes, Ops='{"add","tick","flush","wait","jump"}', MaxLen=maxlen)
@@ -211,69 +258,108 @@ def gen_replay(ctx, binp, name, kind, mx, sizes, maxlen):
         raise core.Infra("ExecutorGen produced no behaviours for %s" % name)
     if len(ctx.samples) < 3:
         ctx.samples += core.sample_of(r.printed, 1)
-    ctx.replay(PKG, OVERLAY, "^TestVerifC16Gen$", path, label="gen-" + name, env=dict(VERIF_KIND=kind, VERIF_MAX=mx),
-               shards=16, binp=binp, race=True)
+    ctx.replay(PKG, OVERLAY, "^TestVerifC16Gen$", path, label="gen-" + name, env=dict(VERIF_KIND=kind, VERIF_MAX=mx, VERIF_DEFAULTED=defaulted),
+               shards=8, binp=binp, race=True)
 
 
 def run(ctx):
-    mc_abstract(ctx)
-    mc_impl(ctx)
+    # The model-checking runs concern the models only (their failures are harness problems, their counterexamples
+    # leads); they run beside the work on the real code.
+    mc_err = []
+
+    def mc():
+        try:
+            mc_abstract(ctx)
+            mc_impl(ctx)
+        except BaseException as e:      # reported below, after the verdicts from the real code
+            mc_err.append(e)
+    mct = threading.Thread(target=mc, daemon=True)
+    mct.start()
+    try:
+        real_code(ctx)
+    finally:
+        mct.join()
+    if mc_err and not ctx.disagreements:     # a harness problem never replaces a disagreement observed on the real code
+        raise mc_err[0]
+    if mc_err:
+        ctx.notes["model_checking_problem"] = str(mc_err[0])[:2000]
+    ctx.assumptions += [
+        "container events (add/take) are emitted while the executor holds pe.lock; inv before a call, ret after it returned; "
+        "xb/xe from inside the execute callback",
+        "histories are the schedules the Go scheduler produced under the given seeds and GOMAXPROCS plus the directed "
+        "scenarios (hand-over, quit race, Adds on the retiring tick); not exhaustive over schedules (the exhaustive "
+        "exploration is on PeriodicalImpl.tla)",
+        "PeriodicalImpl.tla treats a pe.lock region as one atomic step and lets confirmChan deliver to any blocked caller",
+        "a defaulted option is judged against the default constant read from the package under test (TestVerifC16Defaults)"]
+
+
+def real_code(ctx):
     binp = ctx.go_build(PKG, OVERLAY, race=True, name="c16drv")
-    gplans = [("bulk2", "bulk", 2, "{1}", 5), ("chunk3", "chunk", 3, "{1,2,3}", 4)] if ctx.quick else \
+    dflt = defaults(ctx, binp)
+    ctx.notes["package_defaults"] = dflt
+    D = dflt["chunk"]
+    gplans = [("bulk2", "bulk", 2, "{1}", 5), ("chunk3", "chunk", 3, "{1,2,3}", 4),
+              ("chunkdef", "chunk", D, "{%d,%d,%d}" % (D // 2, D - 1, D), 3, 1)] if ctx.quick else \
              [("bulk1", "bulk", 1, "{1}", 5), ("bulk2", "bulk", 2, "{1}", 6), ("bulk3", "bulk", 3, "{1}", 6),
-              ("chunk3", "chunk", 3, "{1,2,3,5}", 5), ("chunk4", "chunk", 4, "{1,3,4,6}", 5)]
+              ("chunk3", "chunk", 3, "{1,2,3,5}", 5), ("chunk4", "chunk", 4, "{1,3,4,6}", 5),
+              ("chunkdef", "chunk", D, "{%d,%d,%d,%d}" % (D // 3, D // 2, D - 1, D), 4, 1)]
     ctx.exhaustive = True
     for g in gplans:
         gen_replay(ctx, binp, *g)
+    # record + validate: the executors' own shards and the clients' shards, three at a time (one TLC worker each)
     plans = [(12, 4, 0), (12, 1, 1), (12, 2, 2), (12, 16, 3)] if ctx.quick else \
             [(400, 4, 0), (400, 1, 1), (400, 2, 2), (400, 16, 3), (300, 8, 4), (300, 3, 5)]
-    for rounds, gmp, shard in plans:
-        path = record(ctx, binp, "g%d-%d" % (gmp, shard), rounds, gmp, shard)
-        if path is None:
-            continue
-        validate(ctx, path, "trace-%d" % shard)
+    cplans = [("inserter", 8, 4, 0), ("metrics", 10, 2, 0)] if ctx.quick else \
+             [("inserter", 100, 4, 0), ("inserter", 100, 1, 1), ("inserter", 60, 16, 2),
+              ("metrics", 150, 4, 0), ("metrics", 150, 1, 1), ("metrics", 100, 16, 2)]
+    bins = {k: ctx.go_build(CLIENTS[k]["pkg"], CLIENTS[k]["overlay"], race=True, name="c16" + k) for k in sorted({c[0] for c in cplans})}
+    jobs = [("exec", rounds, gmp, shard) for rounds, gmp, shard in plans] + cplans
+    problems = []
+
+    def job(kind, rounds, gmp, shard):
         if ctx.counters.get("rec.hangs", 0):
-            ctx.notes["recording_stopped_after_hang"] = "shard %d" % shard
-            break       # each further recorder would spend the grace period on the same hang
-        if not ctx.samples:
-            lines = open(path).read().splitlines()
-            ctx.samples.append([json.loads(x) for x in lines[:16]])
-    if not ctx.counters.get("rec.hangs", 0):
-        cplans = [("inserter", 8, 4, 0), ("metrics", 10, 2, 0)] if ctx.quick else \
-                 [("inserter", 100, 4, 0), ("inserter", 100, 1, 1), ("inserter", 60, 16, 2),
-                  ("metrics", 150, 4, 0), ("metrics", 150, 1, 1), ("metrics", 100, 16, 2)]
-        bins = {}
-        for kind, rounds, gmp, shard in cplans:
-            c = CLIENTS[kind]
-            if kind not in bins:
-                bins[kind] = ctx.go_build(c["pkg"], c["overlay"], race=True, name="c16" + kind)
-            path = record(ctx, bins[kind], "%s-g%d-%d" % (kind, gmp, shard), rounds, gmp, shard, test=c["test"], pkgdir=c["dir"])
+            ctx.notes["recording_stopped_after_hang"] = "before %s shard %d" % (kind, shard)
+            return              # each further recorder would spend the grace period on the same hang
+        try:
+            if kind == "exec":
+                path = record(ctx, binp, "g%d-%d" % (gmp, shard), rounds, gmp, shard)
+                name = "trace-%d" % shard
+            else:
+                c = CLIENTS[kind]
+                path = record(ctx, bins[kind], "%s-g%d-%d" % (kind, gmp, shard), rounds, gmp, shard, test=c["test"], pkgdir=c["dir"])
+                name = "trace-%s-%d" % (kind, shard)
             if path is None:
-                continue
-            validate(ctx, path, "trace-%s-%d" % (kind, shard))
-            if ctx.counters.get("rec.hangs", 0):
-                break
+                return
+            validate(ctx, path, name)
+            if kind == "exec" and shard == 0:
+                lines = open(path).read().splitlines()
+                ctx.samples.append([json.loads(x) for x in lines[:16]])
+        except BaseException as e:
+            problems.append(e)
+    from concurrent.futures import ThreadPoolExecutor
+    with ThreadPoolExecutor(max_workers=3) as pool:
+        for f in [pool.submit(job, *j) for j in jobs]:
+            f.result()
+    if problems and not ctx.disagreements:       # a harness problem never replaces a disagreement observed on the real code
+        raise problems[0]
+    if problems:
+        ctx.notes["recording_problems"] = [str(e)[:1500] for e in problems]
     # Vacuity guards come AFTER the verdict: a counter that stayed 0 because the code under test behaves differently
     # (e.g. no batch of exactly 1000 rows because the threshold moved) is a behavioural difference that the acceptor
     # reports; the guards only protect a run in which nothing was found.
     if not ctx.disagreements:
         need = ["rec.hist_bulk", "rec.hist_chunk", "rec.hist_per", "rec.takes_nonempty", "rec.waits", "rec.flusher_stops",
                 "rec.hist_inserter", "rec.hist_metrics", "rec.tick_flushes", "rec.threshold_batches", "rec.thr_checked",
-                "rec.exec_failures"]
+                "rec.exec_failures", "rec.retiring_hit", "rec.retiring_stop_hit", "rec.retiring_final_hit", "rec.rests", "rec.hist_multi", "rec.multi_defaulted",
+                "rec.default_full_batches", "rec.tickers_timed"]
         if not ctx.quick:
-            need += ["rec.hist_handover", "rec.hist_quitrace"]
+            need += ["rec.hist_handover", "rec.hist_quitrace", "rec.multi_concurrent"]
         missing = [k for k in need if ctx.counters.get(k, 0) == 0]
         if "rec.thr_checked" in missing and ctx.counters.get("rec.thr_void", 0):
             missing.remove("rec.thr_checked")       # machine too slow to judge the size trigger before the first tick
             ctx.notes["threshold_observation"] = "not judged: the 1000 inserts did not finish inside the pre-tick window"
         if missing:
             raise core.Infra("vacuous recording: counters %s are 0" % missing)
-    ctx.assumptions += [
-        "container events (add/take) are emitted while the executor holds pe.lock; inv before a call, ret after it returned; "
-        "xb/xe from inside the execute callback",
-        "histories are the schedules the Go scheduler produced under the given seeds and GOMAXPROCS plus the directed "
-        "hand-over scenario; not exhaustive over schedules (the exhaustive exploration is on PeriodicalImpl.tla)",
-        "PeriodicalImpl.tla treats a pe.lock region as one atomic step and lets confirmChan deliver to any blocked caller"]
 
 
 def replay(ctx, rp):
@@ -287,16 +373,20 @@ def replay(ctx, rp):
         if not m:
             raise core.Infra("replay file of a generated behaviour without kind/max")
         path, _ = ctx.write_cases("replay.ndjson", [rp["case"]])
-        ctx.replay(PKG, OVERLAY, "^TestVerifC16Gen$", path, label="replay", env=dict(VERIF_KIND=m.group(1), VERIF_MAX=int(m.group(2))), race=True)
+        binp = ctx.go_build(PKG, OVERLAY, race=True, name="c16drv")
+        dflt = defaults(ctx, binp)      # the plan run on an executor created without options is the one with Max = package default
+        ctx.replay(PKG, OVERLAY, "^TestVerifC16Gen$", path, label="replay", binp=binp, race=True,
+                   env=dict(VERIF_KIND=m.group(1), VERIF_MAX=int(m.group(2)), VERIF_DEFAULTED=int(int(m.group(2)) == dflt.get(m.group(1)))))
         return
     seg = json.loads(rp["case"]) if rp.get("case") else []
     try:
         first = json.loads(seg[0])
     except Exception:
         first = {}
-    kind = first.get("sc") if first.get("sc") in ("handover", "quitrace") else first.get("kind", "")
+    directed = ("handover", "quitrace", "retiring", "multi")
+    kind = first.get("sc") if first.get("sc") in directed else first.get("kind", "")
     kinds = {"per": ["handover", "quitrace", "per"], "handover": ["handover"], "quitrace": ["quitrace"], "bulk": ["bulk"],
-             "chunk": ["chunk"]}.get(kind, ["handover", "quitrace", "per", "bulk", "chunk"])
+             "chunk": ["chunk"], "retiring": ["retiring"], "multi": ["multi"]}.get(kind, list(directed) + ["per", "bulk", "chunk"])
     if kind in CLIENTS:
         c = CLIENTS[kind]
         binp = ctx.go_build(c["pkg"], c["overlay"], race=True, name="c16" + kind)
@@ -308,9 +398,9 @@ def replay(ctx, rp):
     binp = ctx.go_build(PKG, OVERLAY, race=True, name="c16drv")
     n = 0
     for k in kinds:
-        for gmp in ((4,) if k in ("handover", "quitrace") else (1, 4)):
+        for gmp in ((4,) if k in directed else (1, 4)):
             n += 1
-            p2 = record(ctx, binp, "replay-%s-g%d" % (k, gmp), 10 if k in ("handover", "quitrace") else 120, gmp, n, kind=k)
+            p2 = record(ctx, binp, "replay-%s-g%d" % (k, gmp), (24 if k in ("retiring", "multi") else 10) if k in directed else 120, gmp, n, kind=k)
             if ctx.counters.get("rec.hangs", 0):
                 if p2:
                     validate(ctx, p2, "replay-%s-g%d" % (k, gmp))
